@@ -4,6 +4,7 @@ import json, os, sys
 ORIGIN = {
     5: "written by a fresh sub-agent given only the property text and its own scratch worktree (at /repo commit fc05304); the agent listed a dozen candidate mechanisms first and was told which numbered one to realise, so that rounds do not converge on the obvious one; applied unchanged",
     6: "written by a fresh sub-agent given only the property text and its own scratch worktree (at /repo commit fc05304); the agent listed at least fifteen candidate mechanisms and was told which numbered one (8-14) to realise; applied unchanged",
+    9: "written by a fresh sub-agent given only the property text and its own scratch worktree (at /repo commit fc05304); the agent was told to prefer the runtime crate outside the Display impl, expand/nodes.rs, the small helpers of expand.rs, macros/lib.rs and the manifests, listed at least fifteen candidates and was told which numbered one (7-15) to realise; applied unchanged",
     8: "written by a fresh sub-agent given only the property text and its own scratch worktree (at /repo commit fc05304); the agent was told to make the change in the PARSING LAYER of the macro crate wherever the property allows (else outside expand.rs and the Display impl), listed at least fifteen candidates and was told which numbered one (6-14) to realise; applied unchanged",
     7: "written by a fresh sub-agent given only the property text and its own scratch worktree (at /repo commit fc05304); the agent listed at least twenty candidate mechanisms and was told which numbered one (10-18) to realise; applied unchanged",
 }
